@@ -192,6 +192,11 @@ def harness(g, job, level, canary=False):
             tl.append(('cycle_end',))
             sch.yield_point('hook:after_execute')
     runner = Obs(it, interval=0, execute_all=bool(job['all']))
+    gate = runner._unpaused if hasattr(runner, '_unpaused') else None
+    if gate is not None and isinstance(gate, S.ShimEvent):
+        gate.on_gate = lambda: tl.append(('gate',))      # the runner is let through its pause gate
+    else:
+        gate = None
     queued = []
     delayed = []       # queued with a delay that never elapses in this harness: must stay pending, must not block others
     lines = bool(level.get('lines'))
@@ -325,6 +330,16 @@ def harness(g, job, level, canary=False):
                     g.witness('paused_then_stopped')
                 j += 1
             g.prove(begun <= 1, 'at_most_the_cycle_under_way_after_pause', lambda: dict(info(), begun=begun))
+            if gate is not None:
+                # a cycle that begins while paused was "already under way" only if the runner had passed its pause
+                # gate before pause() returned (and has not begun a cycle since)
+                for j2 in range(i + 1, j):
+                    if tl[j2][0] == 'cycle_begin':
+                        k2 = j2 - 1
+                        while k2 >= 0 and tl[k2][0] not in ('gate', 'cycle_begin'):
+                            k2 -= 1
+                        ok = k2 >= 0 and tl[k2][0] == 'gate' and k2 < i
+                        g.prove(ok, 'cycle_begun_while_paused_was_already_past_the_gate', info)
             i = j
         i += 1
     # ---- stop
